@@ -22,7 +22,7 @@ SHARD_TIMEOUT = {'quick': 600, 'thorough': 2400}
 EXHAUSTIVE = {'quick': True, 'thorough': True}
 MIN_HITS = {
     'quick': {'mon:partition': 500, 'mon:bucket': 300, 'mon:mask': 300, 'contract:pick_final': 300, 'contract:pad': 100,
-              'mon:readonly': 500, 'mon:reiterate': 500, 'hit:held-batches': 1000},
+              'mon:readonly': 500, 'mon:reiterate': 500, 'hit:held-batches': 1000, 'big-dataset': 11},
     'thorough': {'mon:partition': 5000, 'mon:bucket': 3000, 'mon:mask': 3000, 'contract:pick_final': 3000,
                  'contract:pad': 1000, 'mon:readonly': 5000, 'mon:reiterate': 5000, 'hit:held-batches': 4000},
 }
@@ -364,6 +364,15 @@ def run(ctx):
       b = max(1, n // rng.randint(1, 5))  # dividing / near-dividing sizes
     k = int(rng.randint(1, 10))
     check_point(ctx, fedjax, cd, rng, n, b, k, ContractBroken)
+  # big datasets: row counts around powers of two (any internal chunk / block / index-width boundary) with batch sizes that
+  # do not divide them; every N class is hit in both tiers
+  BIG_N = [1023, 1025, 4095, 4096, 4097, 5000, 8193, 12289, 16385, 32769, 65537]
+  for cid, rng in ctx.cases('big', len(BIG_N) * (1 if ctx.quick else 4)):
+    i = int(cid.split('/')[1])
+    n = BIG_N[i % len(BIG_N)]
+    b = int([3, 7, 100, 1000, 4096, 4097, n - 1, 333][rng.randint(8)])
+    ctx.count('big-dataset')
+    check_point(ctx, fedjax, cd, rng, n, max(1, b), int(rng.randint(1, 6)), ContractBroken)
 
 TECHNIQUE = 'runtime monitoring: reference-partition oracle + icontract postconditions over an exhaustive small box and random points'
 LEVEL_TEXT = ('Every (N, batch_size, buckets) point of a small box is executed on the real batching code (exhaustive within the '
